@@ -14,7 +14,9 @@ MANIFEST = dict(
           "Coalesce.glomit with accumulators and early exits as in the Python), for every evaluator of the sub-specs, every "
           "scope representation, every target and length: a list spec is map/filter-SKIP/stop-at-STOP of the sub-spec, a dict "
           "spec yields the same keys in order holding the sub-results, a tuple feeds each result to the next step "
-          "(glom(t,(a,b)) = glom(glom(t,a),b) for non-sentinel results), Pipe = tuple, Coalesce first non-skipped success wins "
+          "(glom(t,(a,b)) = glom(glom(t,a),b) for non-sentinel results; a chain of pure steps is the reference fold chainRef, whose "
+          "result is never a sentinel, so a chain nested in a chain hands its value on to the outer steps also when one of its "
+          "steps returned STOP: c03_chain_ref, c03_nested_chain), Pipe = tuple, Coalesce first non-skipped success wins "
           "and later alternatives never run, containers are determined by the evaluator at their own scope only. The model is "
           "tied to /repo by differential execution (result + ordered call log) through the compiled Lean driver, and the "
           "composition law itself is re-evaluated on the real glom (top-level tuple/dict/list specs recomputed from separate "
